@@ -1127,6 +1127,13 @@ func ruleBrokerListeners(c *Ctx) {
 		if SelField(fi, e) == regField {
 			return true
 		}
+		// maps.Keys(b.F), slices.Collect(maps.Keys(b.F)), slices.Sorted(...)
+		if call, ok := e.(*ast.CallExpr); ok && len(call.Args) >= 1 {
+			switch p.CalleeName(f, call) {
+			case "maps.Keys", "maps.Values", "slices.Collect", "slices.Sorted", "slices.Clone", "slices.Values":
+				return fromField(f, call.Args[0], depth+1)
+			}
+		}
 		v, ok := identObj(fi, e).(*types.Var)
 		if !ok || v.IsField() {
 			return false
@@ -1770,6 +1777,37 @@ func ruleStdioDelivery(c *Ctx) {
 						}
 					}
 				}
+			}
+			// a failed write to the user's writer is logged and the loop goes on
+			writeEnds := false
+			for _, m := range g.Nodes {
+				if m.Ast == nil || !isWrite(m) {
+					continue
+				}
+				defs, _ := nodeDefsUses(info, m.Ast)
+				for ev := range defs {
+					if !isErrorType(ev.Type()) {
+						continue
+					}
+					for _, x := range g.Nodes {
+						for _, e := range x.Succs {
+							at, isAt := edgeAtom(info, e)
+							if !isAt || at.Kind != "nil" || at.Op != token.NEQ || identObj(info, at.X) != ev {
+								continue
+							}
+							seenW := g.Reach([]*Node{e.To}, func(y *Node) bool { return y == recvN }, nil)
+							if _, out := seenW[g.Exit]; out {
+								writeEnds = true
+							}
+						}
+					}
+				}
+			}
+			if writeEnds {
+				c.R.Violate("R-ROUTE/stdio", p.Pos(recvN.Ast), f.Name, "a failed write does not end the stream",
+					"after a write to the user's sync writer failed the receive loop can end: one transient write error on either writer stops the forwarding of both streams for the rest of the connection", nil)
+			} else {
+				c.R.Hold("R-ROUTE/stdio", p.Pos(recvN.Ast), f.Name, "a failed write does not end the stream", "from the error edge of the write every path returns to the Recv", true)
 			}
 			construct := "every chunk received on a known channel is written"
 			switch {
